@@ -72,7 +72,7 @@ Lemma stopped_mono_c rc s l s1 : In (l, s1) (cstep rc s) ->
   | _ => False
   end.
 Proof.
-  intros H. dst s; destruct rc; unfold cstep, do_cancel, stopped_of in *; cbn in *;
+  intros H. dst s; destruct rc; unfold cstep, do_cancel, pwake, stopped_of in *; cbn in *;
   crunch H; cbn in *; splitifs; repeat split; auto.
 Qed.
 
@@ -86,6 +86,18 @@ Lemma stopped_mono_x s l s1 : In (l, s1) (xstep s) ->
 Proof.
   intros H. dst s; unfold xstep, stopped_of in *; cbn in *;
   crunch H; cbn in *; repeat split; auto; destruct cpc0; reflexivity.
+Qed.
+
+Lemma stopped_mono_p s l s1 : In (l, s1) (pstep s) ->
+  s_pc s1 = s_pc s /\ s_att s1 = s_att s /\ s_conn s1 = s_conn s /\
+  stopped_of s1 = stopped_of s /\
+  match l with
+  | Some (EPollCall _) | Some (EPollRet _) | Some (EImplClose _) | None => True
+  | _ => False
+  end.
+Proof.
+  intros H. dst s; unfold pstep, stopped_of in *; cbn in *;
+  crunch H; cbn in *; splitifs; repeat split; auto.
 Qed.
 
 Lemma R_frame rc sc s m s1 m' :
@@ -102,19 +114,22 @@ Proof.
 Qed.
 
 Lemma R_order_cx_tau rc sc s m s1 :
-  R_order rc sc s m -> In (None, s1) (cstep rc s ++ xstep s) ->
+  R_order rc sc s m -> In (None, s1) (cstep rc s ++ xstep s ++ pstep s) ->
   inv1 rc s1 -> R_order rc sc s1 m.
 Proof.
   intros R H I1. pose proof R as [_ [B [St _]]].
   apply in_app_iff in H. destruct H as [H|H].
   - destruct (stopped_mono_c _ _ _ _ H) as [E1 [E2 [E3 [E4 E5]]]].
     eapply R_frame; eauto; congruence.
-  - destruct (stopped_mono_x _ _ _ H) as [E1 [E2 [E3 E5]]].
-    eapply R_frame; eauto; congruence.
+  - apply in_app_iff in H. destruct H as [H|H].
+    + destruct (stopped_mono_x _ _ _ H) as [E1 [E2 [E3 E5]]].
+      eapply R_frame; eauto; congruence.
+    + destruct (stopped_mono_p _ _ _ H) as [E1 [E2 [E3 [E4 E5]]]].
+      eapply R_frame; eauto; congruence.
 Qed.
 
 Lemma R_order_cx_vis rc sc s m l s1 :
-  R_order rc sc s m -> In (Some l, s1) (cstep rc s ++ xstep s) ->
+  R_order rc sc s m -> In (Some l, s1) (cstep rc s ++ xstep s ++ pstep s) ->
   inv1 rc s1 ->
   o_bad (order_step rc sc m l) = false /\ R_order rc sc s1 (order_step rc sc m l).
 Proof.
@@ -123,9 +138,13 @@ Proof.
   - destruct (stopped_mono_c _ _ _ _ H) as [E1 [E2 [E3 [E4 E5]]]].
     destruct l; try contradiction; cbn; (split; [reflexivity|]);
     (eapply R_frame; eauto; cbn; congruence).
-  - destruct (stopped_mono_x _ _ _ H) as [E1 [E2 [E3 E5]]].
-    destruct l; try contradiction; cbn; (split; [reflexivity|]);
-    (eapply R_frame; eauto; cbn; congruence).
+  - apply in_app_iff in H. destruct H as [H|H].
+    + destruct (stopped_mono_x _ _ _ H) as [E1 [E2 [E3 E5]]].
+      destruct l; try contradiction; cbn; (split; [reflexivity|]);
+      (eapply R_frame; eauto; cbn; congruence).
+    + destruct (stopped_mono_p _ _ _ H) as [E1 [E2 [E3 [E4 E5]]]].
+      destruct l; try contradiction; cbn; (split; [reflexivity|]);
+      (eapply R_frame; eauto; cbn; congruence).
 Qed.
 
 Lemma drop_empty_nil_cons X : drop_empty ([] :: X) = drop_empty X.
@@ -153,7 +172,7 @@ Proof.
   pose proof (inv1_cancelled_stopped _ _ I) as HC.
   pose proof (proj1 (proj2 (proj2 (proj2 (proj2 I))))) as HR.
   unfold R_order. split; [exact I1|]. split; [exact B|]. clear I I1.
-  dst s; destruct rc; unfold stopped_of, sstep, end_attempt, do_cancel, rest_ok, expected, cancelled in *; cbv zeta in *; cbn in *;
+  dst s; destruct rc; unfold stopped_of, sstep, end_attempt, do_cancel, pwake, rest_ok, expected, cancelled in *; cbv zeta in *; cbn in *;
   crunch H; cbn in *; splitifs; (split; [exact St|]).
   all: try exact Logic.I.
   all: try (match goal with
@@ -184,7 +203,7 @@ Proof.
   pose proof (proj1 (proj2 (proj2 (proj2 (proj2 I))))) as HR.
   unfold R_order. clear I.
   destruct m as [ms mr mc mb]; cbn in B; subst mb.
-  dst s; destruct rc; unfold stopped_of, sstep, end_attempt, do_cancel, rest_ok, expected, cancelled in *; cbv zeta in *; cbn in *;
+  dst s; destruct rc; unfold stopped_of, sstep, end_attempt, do_cancel, pwake, rest_ok, expected, cancelled in *; cbv zeta in *; cbn in *;
   crunch H; cbn in *; splitifs.
   all: try (match goal with
             | E : nth_error _ _ = Some _ |- _ => rewrite (skipn_nth_some _ _ _ E) in *; cbn in *
